@@ -207,7 +207,7 @@ func main() {
 	c.Rule("for every (curve, circuit covering generic/specialised gates, hints, logs, lookup blueprint, range checks, commitments, GKR metadata) x {R1CS+Groth16, sparse R1CS+PLONK}: every object (constraint system, proving key, verifying key, proof, full and public witness) x every encoding it offers (WriteTo, WriteRawTo, UnsafeReadFrom, WriteDump/ReadDump, witness binary+JSON) x chains of length 1 and 2: written count = bytes written = read count = bytes consumed from a stream with trailing sentinel bytes; re-encoding reproduces the same bytes; decoded systems solve every valid/invalid witness to the same solution bytes; and the full cross-use product {original, decoded...} system x proving key x proof encoding x verifying key proves and verifies, rejecting a tampered public input. distinct = (object, encoding, verdict).")
 	c.Assume("Setup randomness irrelevant to the verdicts; unsafekzg SRS")
 	cases := append(bkcat.Cases(), extraCases()...)
-	curves := bk.Curves(c.Quick())
+	curves := []ecc.ID{ecc.BN254, ecc.BLS12_377, ecc.BLS12_381, ecc.BLS24_315, ecc.BLS24_317, ecc.BW6_633, ecc.BW6_761}
 	if c.Quick() {
 		curves = curves[:2] // bn254, bls12-377 (thorough: all 7)
 	}
